@@ -264,17 +264,27 @@ struct VBlock {
     MRec stats;
     unsigned bp_index = 0;
     size_t n_qr = 0, n_aec = 0, n_mm = 0;
+    CDNS::BlockParameters params;       // the parameter set the reader attached to the block
 };
 struct VFile {
     std::vector<VBlock> blocks;
+    bool opened = false;                // the reader's constructor (file header + preamble) succeeded
+    bool has_pre_after = false;
+    CDNS::FilePreamble pre_after;       // the reader's preamble after the last read_block() call
     bool ended_clean = false;           // reader reported eof=true
     std::string error;                  // what() of the exception that ended reading, if any
     std::string error_type;
 };
 
+// CdnsBlock::m_block_parameters is protected: read it through a pointer to member formed in a derived class
+struct BlockParamsPeek : CDNS::CdnsBlock {
+    static const CDNS::BlockParameters& of(const CDNS::CdnsBlock& b) { return b.*(&BlockParamsPeek::m_block_parameters); }
+};
+
 inline VBlock view_block(CDNS::CdnsBlockRead& b) {
     VBlock v;
     v.bp_index = b.get_block_parameters_index();
+    v.params = BlockParamsPeek::of(b);
     v.n_qr = b.get_qr_count();
     v.n_aec = b.get_aec_count();
     v.n_mm = b.get_mm_count();
@@ -302,6 +312,7 @@ inline VFile view_stream(std::istream& is, CDNS::FilePreamble* pre_out = nullptr
     VFile f;
     try {
         CDNS::CdnsReader rd(is);
+        f.opened = true;
         if (pre_out) *pre_out = rd.m_file_preamble;
         for (;;) {
             bool eof = false;
@@ -309,6 +320,8 @@ inline VFile view_stream(std::istream& is, CDNS::FilePreamble* pre_out = nullptr
             if (eof) { f.ended_clean = true; break; }
             f.blocks.push_back(view_block(b));
         }
+        f.pre_after = rd.m_file_preamble;
+        f.has_pre_after = true;
     } catch (CDNS::CdnsDecoderEnd& e) { f.error = e.what(); f.error_type = "CdnsDecoderEnd"; }
     catch (CDNS::CdnsDecoderException& e) { f.error = e.what(); f.error_type = "CdnsDecoderException"; }
     catch (std::exception& e) { f.error = e.what(); f.error_type = "std::exception"; }
